@@ -146,7 +146,7 @@ func (w *driveWorld) bigBlock(d []int, k int) {
 		}
 		w.calls++
 		if err != nil {
-			w.fail([]string{"C01"}, in.Name, "error", fmt.Sprintf("Modify refused an honest block (%d deletions, %d additions): %v", len(d), k, err))
+			w.fail([]string{"C01", "C05"}, in.Name, "error", fmt.Sprintf("Modify refused an honest block (%d deletions, %d additions): %v", len(d), k, err))
 			return
 		}
 	}
@@ -180,12 +180,12 @@ func (w *driveWorld) bigObserve() {
 		w.emitLazy(func(e *driveEvent) { e.Inst, e.N, e.Roots = name, nl, w.sy.Ts(rs) }, "roots")
 		// the implementations must also agree with each other (hash values, no naming needed)
 		if nl != sn || len(rs) != len(sr) {
-			w.fail([]string{"C01"}, name, "roots", fmt.Sprintf("leaf count / number of roots differ from the roots-only verifier: %d/%d vs %d/%d", nl, len(rs), sn, len(sr)))
+			w.fail([]string{"C01", "C05"}, name, "roots", fmt.Sprintf("leaf count / number of roots differ from the roots-only verifier: %d/%d vs %d/%d", nl, len(rs), sn, len(sr)))
 			continue
 		}
 		for i := range rs {
 			if rs[i] != sr[i] {
-				w.fail([]string{"C01"}, name, "roots", fmt.Sprintf("root %d differs from the roots-only verifier after a block on %d leaves", i, sn))
+				w.fail([]string{"C01", "C05"}, name, "roots", fmt.Sprintf("root %d differs from the roots-only verifier after a block on %d leaves", i, sn))
 				break
 			}
 		}
